@@ -66,6 +66,11 @@ STALE_PATTERNS = [
     ('0_2_assignment.json', 'file'), ('tmpstale00', 'dir'),
     ('query_marker_stale0.h5', 'file'), ('unthinned_stale0.h5', 'file'),
     ('transposed_stale0.h5', 'file'),
+    ('round_x_to_integers_staging_stale0', 'dir'),
+    ('data_as_int_stale0.h5', 'file'), ('transpose_0_8_stale0.h5', 'file'),
+    ('stats_stale000.h5', 'file'), ('query_stale000.h5ad', 'file'),
+    ('src_stale000.h5', 'file'), ('dst_stale000.h5', 'file'),
+    ('transposing_sparse_matrix_stale0', 'dir'),
 ]
 
 
@@ -488,6 +493,17 @@ def check_model(ctx, area, specs, history, before, after):
                              fsmon.uncomps(o['p']), str(area.wd)))
                              for o in ops[:6]]})
         ctx.count('ops:%s' % spec['stage'], len(ops))
+        # which temporary-name patterns the code really uses, and whether a
+        # stale entry of that pattern was planted (coverage, goes to evidence)
+        seen = ctx.extra_cov.setdefault('temp_patterns_seen', {})
+        planted = [n for n, _ in STALE_PATTERNS]
+        for o in ops:
+            if o['op'] in ('mkdtemp', 'mkstemp'):
+                cls = temp_class(o['p'][-1], 'mapping')
+                cls = re.sub(r'^(\d+_)+', '', re.sub(r'_\d+(?=_|$)', '', cls))
+                hit = any(cls and (pn.startswith(cls) or cls in pn)
+                          for pn in planted)
+                seen[cls] = 'planted' if hit else 'not planted'
         probe = sorted(set(before) | set(after)
                        | set(fsmon.uncomps(o['p']) for o in ops)
                        | set(fsmon.uncomps(o['q']) for o in ops if 'q' in o))
@@ -569,6 +585,14 @@ def solo_result(ctx, rng_state, build, label):
             rx = re.compile(spec['output_glob'])
             spec['found_outputs'] = [p for p in after if rx.match(p)]
         return spec['status'], result_of(spec)
+
+
+def solo_results(ctx, items):
+    """several solo baselines, two at a time; items = [(state, build, label)]"""
+    from concurrent.futures import ThreadPoolExecutor
+    with ThreadPoolExecutor(max_workers=2) as ex:
+        futs = [ex.submit(solo_result, ctx, st, b, l) for st, b, l in items]
+        return [f.result() for f in futs]
 
 
 def compare_with_solo(ctx, spec, history, got, solo):
@@ -660,10 +684,10 @@ def history_stages(ctx, rng, encoding='csr', twice=False):
         # precompute and validate do not depend on each other: run them
         # concurrently, sharing the scratch and output directories
         got = run_specs(ctx, area, [p, v], hist + ':precompute||validate')
-        compare_with_solo(ctx, p, hist, got[0],
-                          solo_result(ctx, state, build_p, 'precompute'))
-        compare_with_solo(ctx, v, hist, got[1],
-                          solo_result(ctx, state_v, build_v, 'validate'))
+        solos = solo_results(ctx, [(state, build_p, 'precompute'),
+                                   (state_v, build_v, 'validate')])
+        compare_with_solo(ctx, p, hist, got[0], solos[0])
+        compare_with_solo(ctx, v, hist, got[1], solos[1])
         if got[0][0]['ok']:
             stats = p['outputs'][0]
             m = markers_job(rng, area, 'm', stats)
@@ -698,9 +722,10 @@ def history_pair(ctx, rng, n=2):
             builds.append(build)
             specs.append(build(rng, area))
         got = run_specs(ctx, area, specs, hist)
-        for s, g, st, b in zip(specs, got, states, builds):
-            compare_with_solo(ctx, s, hist, g,
-                              solo_result(ctx, st, b, 'mapping'))
+        solos = solo_results(ctx, [(st, b, 'mapping')
+                                   for st, b in zip(states, builds)])
+        for s, g, so in zip(specs, got, solos):
+            compare_with_solo(ctx, s, hist, g, so)
 
 
 def check_skeletons(ctx):
